@@ -143,6 +143,37 @@ def p_ecp_coef(b, rng):
     return True
 
 
+def _two_term_pots(b):
+    return [p for el in b['elements'].values() for p in el.get('ecp_potentials', []) if len(p['r_exponents']) >= 2]
+
+
+def p_ecp_swap_coefficients(b, rng):
+    """the same numbers attached to other terms: the coefficients of two terms exchanged"""
+    ps = [p for p in _two_term_pots(b) if len({Decimal(c.strip()) for c in p['coefficients'][0]}) >= 2]
+    if not ps:
+        return False
+    c = rng.choice(ps)['coefficients'][0]
+    i, j = next((i, j) for i in range(len(c)) for j in range(len(c)) if Decimal(c[i].strip()) != Decimal(c[j].strip()))
+    c[i], c[j] = c[j], c[i]
+    return True
+
+
+def p_ecp_swap_gexp(b, rng):
+    """the gaussian exponents of two terms exchanged (coefficients and r powers stay)"""
+    ps = []
+    for p in _two_term_pots(b):
+        g, c, r = p['gaussian_exponents'], p['coefficients'][0], p['r_exponents']
+        for i in range(len(g)):
+            for j in range(i + 1, len(g)):
+                if Decimal(g[i].strip()) != Decimal(g[j].strip()) and (Decimal(c[i].strip()) != Decimal(c[j].strip()) or r[i] != r[j]):
+                    ps.append((g, i, j))
+    if not ps:
+        return False
+    g, i, j = rng.choice(ps)
+    g[i], g[j] = g[j], g[i]
+    return True
+
+
 def p_ecp_rexp(b, rng):
     ps = [p for el in b['elements'].values() for p in el.get('ecp_potentials', [])]
     if not ps:
@@ -180,6 +211,7 @@ PERTURBATIONS = [
     ('am-change', p_am_change, False, False), ('drop-element', p_drop_element, False, False),
     ('ecp-coefficient', p_ecp_coef, False, False), ('ecp-r-exponent', p_ecp_rexp, False, False),
     ('ecp-electrons', p_ecp_electrons, False, False), ('ecp-dropped', p_ecp_drop, False, False),
+    ('ecp-swap-coefficients', p_ecp_swap_coefficients, False, False), ('ecp-swap-gaussian-exponents', p_ecp_swap_gexp, False, False),
 ]
 
 
